@@ -11,6 +11,8 @@
 //!    only the child and is attributed to the job that was running.  Every returned error is rendered
 //!    through Display, Debug, render(), render_with_formatter, render_with_options, the miette report
 //!    and its location accessors.
+//!    Further families: aliases to anchors still open below 1..100 nested anchored containers (flow and block); runs of
+//!    up to a million signs / operators / parentheses / separators for the expression evaluator and the number parsers.
 use crate::ctx::{Ctx, Rng, Tier};
 use crate::docgen;
 use crate::live::{self, PumpOpts};
